@@ -7,7 +7,7 @@ import engine, specutil
 def all_targets():
     import t_macros
     ts = list(t_macros.TARGETS)
-    for mod in ("t_vm", "t_values", "t_compile", "t_serde"):
+    for mod in ("t_vm", "t_values", "t_compile", "t_serde", "t_token"):
         try:
             m = __import__(mod)
             ts += m.TARGETS
@@ -46,7 +46,10 @@ def run_target(P, t, time_budget=600):
         return run_special(P, t)
     V = specutil.Verdicts(t["name"])
     try:
-        f = t["func"] if not isinstance(t["func"], str) else specutil.find_func(P, t["func"], t.get("self_ty"))
+        if callable(t["func"]):
+            f = t["func"](P)
+        else:
+            f = t["func"] if not isinstance(t["func"], str) else specutil.find_func(P, t["func"], t.get("self_ty"))
     except KeyError as e:
         return dict(name=t["name"], props=t["props"], status="inconclusive", why=f"entry function not found: {e}", obligations=0, discharged=0, failures=[], paths=0)
     def on_path(res):
@@ -83,16 +86,21 @@ def main():
     ap.add_argument("--prop", default=None)
     ap.add_argument("--json", default=None)
     ap.add_argument("-v", action="store_true")
+    ap.add_argument("--only-explicit", action="store_true", help="--only names were typed by a person: ignore tiers")
     a = ap.parse_args()
     if a.list:
+        tier = os.environ.get("MIRSYM_TIER", "quick")
         for t in all_targets():
-            if not a.prop or a.prop in t["props"]:
+            if (not a.prop or a.prop in t["props"]) and (t.get("tier", "quick") == "quick" or tier == "thorough"):
                 print(t["name"])
         return
     P = specutil.load_program(a.repo, a.mir)
     out = []
+    tier = os.environ.get("MIRSYM_TIER", "quick")
     for t in all_targets():
         if a.only and t["name"] not in a.only.split(","):
+            continue
+        if t.get("tier", "quick") == "thorough" and tier != "thorough" and not a.only_explicit:
             continue
         if a.prop and a.prop not in t["props"]:
             continue
